@@ -1,24 +1,97 @@
 """Configuration of ./check for C17 (see tools/props.py)."""
 ENTRY = {'coq_dir': 'C17',
  'harness': 'c17',
- 'cases': {'quick': 400, 'thorough': 100000},
+ 'cases': {'quick': 600, 'thorough': 100000},
  'consts': ['DEFAULT_MAX_RECORDS',
             'DEFAULT_MAX_RECORD_SIZE_BYTES',
             'DEFAULT_MAX_PROVIDER_KEYS',
             'DEFAULT_MAX_PROVIDER_ADDRESSES',
-            'DEFAULT_MAX_PROVIDERS_PER_KEY'],
- 'rule': 'seeded random operation histories (10-120 ops quick, 20-500 thorough) over <=8 keys and <=10 providers with configurations drawn '
-         'from {0,1,2,3,default}; after every operation the returned value and the full sorted store dump of the real MemoryStore are '
-         'compared with the extracted Coq model; a case is non-trivial when its trace has >= 8 numbers; distinct = distinct (case, trace) '
-         'pairs',
- 'trusted_base': ['SHA-256 distance between provider and key enters the model as a rank supplied by the harness (computed with the real '
-                  'code); equal distance <=> equal peer is assumed',
-                  'std::time::Instant: expiries are placed >= 1000 s in the future or < 1 ms after harness start, so that wall-clock drift '
-                  'cannot flip a comparison'],
+            'DEFAULT_MAX_PROVIDERS_PER_KEY',
+            'KAD_MAX_ADDRESSES',
+            'DEFAULT_PROVIDER_TTL_SECS',
+            'DEFAULT_PROVIDER_REFRESH_INTERVAL_SECS',
+            'C17_STORE_CALL_SITES'],
+ 'rule': 'one harness stream with three kinds of seeded cases (40% / 35% / 25%) plus the stored witnesses of corpus/C17 and one case that '
+         'prints the compiled MemoryStoreConfig::default(). (1) legacy: random histories (10-120 ops quick, 20-500 thorough) of '
+         'get/put/get_providers/put_provider/put_local_provider/remove_local_provider on the real MemoryStore and the real clock, <=8 '
+         'keys, <=10 providers, configurations from {0,1,2,3,default}, expiries far from the clock. (2) timed: the same store on a '
+         'logical clock (hook store_clock, 1 unit = 1 ms, non-decreasing readings chosen by the case) with record expiries at, one unit '
+         'before and one unit after the reading, provider_ttl in {0,1,2,5,40}, put_local_provider with quorums All/One/N(1)/N(2)/N(20), '
+         'next_action() polled until Pending under tokio\'s paused clock (refresh interval in {0,1,3,10,25}) and direct calls of '
+         'Record::is_expired / ProviderRecord::is_expired. (3) kad: the REAL Kademlia::run loop (polled by hand, tokio paused, 1 tick = '
+         '10 s) configured through every ConfigBuilder setter, both validation modes, replication factor {1,2,20}: inbound PUT_VALUE '
+         '(publisher none / known / unknown / undecodable, ttl 0..5), ADD_PROVIDER (0-2 entries, sender or third party, undecodable '
+         'peer id / connection type, 0..70 addresses with duplicates and junk), GET_VALUE, GET_PROVIDERS as protobuf bytes on in-memory '
+         'carriers, the commands PutRecord / PutRecordToPeers / StoreRecord / StartProviding / StopProviding / GetRecord / GetProviders, '
+         'and time passing (stored expiries aged by the loop itself, tokio clock advanced, refresh actions observed). After every '
+         'operation the returned value / served answer and a full sorted dump of records (value id, length, publisher, expiry), '
+         'provider lists in stored order (peer, distance rank, address count, expiry), local_providers with quorum and the number of '
+         'pending refresh futures are compared with the extracted Coq model. prop_ok re-judges the property text on the '
+         'implementation\'s trace alone (bounds, sortedness, freshness of everything returned or served, nothing fresh withheld, TTL '
+         'monotonicity, closest-retained refinement, refresh only for provided keys, remote peers add only themselves, Manual mode). '
+         'Non-trivial: trace >= 8 numbers; distinct = distinct (case, trace) pairs.',
+ 'trusted_base': ['SHA-256: the distance between provider and key enters the model as its rank among the pool (computed with the real '
+                  'ProviderRecord::distance; the harness asserts that the distances of its pool are pairwise distinct); '
+                  'C17_no_provider_twice_xor reduces "equal distance <=> equal peer" to "distinct peers have distinct hashes"',
+                  'store_clock hook: the three clock reads of store.rs go through `fn now()`, which is Instant::now() without the verif '
+                  'feature (C17_source_tables_covered: exactly one Instant::now() left in store.rs, three calls of the helper); legacy '
+                  'and kad cases run on the real clock',
+                  'kad stream: real time that elapses inside a case (ms) makes the implementation\'s clock read later than the model\'s by '
+                  'less than half a tick (5 s); comparisons between whole ticks cannot flip; wire TTLs are compared rounded to ticks',
+                  'tokio::time::sleep under the paused clock (1 ms granularity; all logical times are whole ms)',
+                  'the probe inside Kademlia::run (one more add-only statement: log of RefreshProvider actions; the at-select snapshot '
+                  'also carries the store; an ageing request is applied there)'],
  'level_text': 'Proof: the store invariant (all five size bounds, key uniqueness, strictly distance-sorted duplicate-free provider lists) '
-               'is proved inductive over every operation history and configuration with max_providers_per_key >= 1; freshness of reads, '
-               'TTL monotonicity and the put_provider refinement (delete old entry, insert sorted, keep the closest) are theorems about '
-               'the model; the model is tied to store.rs by a per-operation differential run with full state dumps.',
- 'level_note': 'Trusted: Coq kernel, ExtrOcamlBasic extraction, the harness and hooks; SHA-256 distances enter as ranks; Instant-based '
-               'expiry is exercised only far from the comparison boundary; the refresh timer of local providers is not modelled.',
- 'assumptions': ['max_providers_per_key >= 1 (as in the property text)', 'HashMap iteration order is not observable (dumps are sorted)']}
+               'is inductive over every operation history, clock reading and configuration with max_providers_per_key >= 1; reads are '
+               'characterised completely (exactly the stored entries whose expiry lies strictly after the clock reading: '
+               'C17_get_complete, C17_get_providers_complete, expiry boundary `now >= expires`), over whole histories '
+               '(C17_history_fresh); TTL monotonicity and the put_provider refinement (delete old entry, insert sorted, keep the '
+               'closest) as before. New: the refresh machinery (lazy futures, quorum map) is modelled - a refresh is announced only '
+               'for a key provided at that moment, with the stored quorum, never earlier than the refresh interval after the '
+               'successful put_local_provider that scheduled it, and a due future is never skipped; the Kademlia event loop around '
+               'the store is modelled event by event - everything it does to the maps is a sequence of the six store operations, so '
+               'the invariant holds after every history of network messages, commands and timer expiries in both validation modes; '
+               'a remote peer can add only itself as a provider, cannot add a record in Manual mode, cannot touch local '
+               'registrations; GET_VALUE / GET_PROVIDERS answers carry exactly the stored unexpired entries. '
+               'C17_source_tables_covered ties the model to the source shape (store methods, the 13 call sites of the store, enum '
+               'variants, configuration fields / defaults / setters, clock reads), regenerated on every check.',
+ 'level_note': 'Trusted: Coq kernel, ExtrOcamlBasic extraction, harness and hooks. Not modelled: SHA-256 (distances are ranks), the '
+               'query engine behind the commands (routing table kept empty), message.rs record_to_schema/record_from_schema beyond '
+               'ttl = 0 <-> no expiry (whole-second rounding is hidden by the 10 s tick), a full event channel (await inside a '
+               'handler), HashMap order (dumps sorted), the order in which several refresh futures that are due at once are handled '
+               '(observed and validated as a permutation). Observations outside the property text (theorems / witnesses, not '
+               'findings): local_providers is not bounded by max_provider_keys and pending_provider_refresh by nothing '
+               '(C17_local_registrations_outlive_provider_keys, C17_refresh_futures_unbounded); remove_local_provider hits '
+               'debug_assert!(false) when the local provider was displaced or pruned; an incoming record with ttl 0 is stored '
+               'without expiry and its publisher is taken from the wire unchecked; record_to_schema sends ttl 0 ("never expires") '
+               'for a record with less than one second left; a GET_PROVIDERS answer lists up to MAX_ADDRESSES public addresses for '
+               'the local node regardless of max_provider_addresses.',
+ 'assumptions': ['max_providers_per_key >= 1 (as in the property text)',
+                 'HashMap iteration order is not observable (dumps are sorted)',
+                 'clock readings are non-decreasing (std::time::Instant) - used only by C17_refresh_after_interval',
+                 'distinct peers have distinct SHA-256 hashes (C17_no_provider_twice_xor)'],
+ 'clause_map': [
+     ['never holds more records / larger values / more provider keys / more providers per key / more addresses per provider than configured',
+      'C17_bounds_sorted, C17_step_preserves, C17_timed_bounds_sorted, C17_loop_bounds_sorted (through the event loop), C17_loop_address_bound, C17_default_config',
+      'all three case kinds: inv_b on every dumped state (prop_ok), full state diff'],
+     ['never returns an expired record or provider',
+      'C17_get_fresh, C17_get_providers_fresh, C17_get_complete, C17_get_providers_complete, C17_expiry_boundary_record, C17_expiry_boundary_provider, C17_history_fresh, C17_provider_expiry, C17_served_record_fresh, C17_served_providers_fresh',
+      'timed cases (expiry = clock reading, +-1), is_expired called directly; kad cases: served answers checked against the previous dump'],
+     ['a stored record with an expiry is never replaced by one that expires earlier',
+      'C17_ttl_monotone, C17_put_lookup, C17_put_other',
+      'legacy + timed: per-put judgement in step_ok; kad: rel_le on every key present before and after an event'],
+     ['providers kept sorted by distance; at the bound only the closest retained; re-announcement updates in place',
+      'C17_bounds_sorted (strict sortedness), C17_put_provider_spec, C17_no_provider_twice, C17_no_provider_twice_xor',
+      'spec_put recomputed by prop_ok on the implementation\'s lists; stored order dumped'],
+     ['reads delete nothing but expired entries of the asked key',
+      'C17_get_pure, C17_get_providers_pure',
+      'others_same_* / same_but_* in step_ok'],
+     ['(callers) what enters the store: validation mode, sender = provider, address truncation, publisher / expiry on receipt',
+      'C17_loop_only_store_ops, C17_manual_mode_no_remote_record, C17_remote_adds_only_sender, C17_remote_keeps_local_registrations, C17_loop_address_bound, C17_source_tables_covered',
+      'kad cases on the real Kademlia::run; corpus w3'],
+     ['(oracle) prop_ok judges the property text, not "equals the model"',
+      'C17_oracle_invariant_sound, C17_oracle_invariant_complete, C17_oracle_spec_is_theorem_spec',
+      'driver ok on implementation and model traces of every case'],
+     ['(refresh) local providers are re-announced: only provided keys, stored quorum, not before the interval, none skipped',
+      'C17_local_providers_sync, C17_refresh_only_provided, C17_refresh_after_interval, C17_poll_fires_all_due, C17_refresh_future_count, C17_loop_refresh_armed, C17_default_refresh_before_expiry',
+      'timed cases (next_action under the paused clock, deadline +-1 ms); kad cases (refresh actions of the loop)']]}
